@@ -146,7 +146,7 @@ pub(crate) fn liblist_clause(s: Span) -> IResult<Span, LiblistClause> {
 #[tracable_parser]
 #[packrat_parser]
 pub(crate) fn use_clause(s: Span) -> IResult<Span, UseClause> {
-    alt((use_clause_cell, use_clause_named, use_clause_cell_named))(s)
+    alt((use_clause_cell_named, use_clause_named, use_clause_cell))(s)
 }
 
 #[tracable_parser]
@@ -180,9 +180,24 @@ pub(crate) fn use_clause_named(s: Span) -> IResult<Span, UseClause> {
 #[packrat_parser]
 pub(crate) fn use_clause_cell_named(s: Span) -> IResult<Span, UseClause> {
     let (s, a) = keyword("use")(s)?;
-    let (s, b) = opt(pair(library_identifier, symbol(".")))(s)?;
-    let (s, c) = cell_identifier(s)?;
-    let (s, d) = list(symbol(","), named_parameter_assignment)(s)?;
+    // "cell .P(1)" starts like "lib.cell": try both readings
+    let (s, (b, c, d)) = alt((
+        map(
+            tuple((
+                pair(library_identifier, symbol(".")),
+                cell_identifier,
+                list(symbol(","), named_parameter_assignment),
+            )),
+            |(b, c, d)| (Some(b), c, d),
+        ),
+        map(
+            pair(
+                cell_identifier,
+                list(symbol(","), named_parameter_assignment),
+            ),
+            |(c, d)| (None, c, d),
+        ),
+    ))(s)?;
     let (s, e) = opt(pair(symbol(":"), config))(s)?;
     Ok((
         s,
